@@ -5,7 +5,10 @@
 import OttoVerif.C12.Spec
 import OttoVerif.C12.Model
 namespace OttoVerif.C12.Lem
-open OttoVerif.C12 OttoVerif.C12.Spec
+open OttoVerif.C12
+
+section Cal
+open OttoVerif.C12.Spec
 
 -- ---------------------------------------------------------------- ES5 side
 
@@ -186,6 +189,9 @@ theorem goAbsDate_eq (abs t : Int) (h : SameDay abs t) :
   have hr := dayWithinYear_range t
   rw [hleap, goMonthDay_eq _ _ (inLeapYear_01 t) hr.1 hr.2, dateFromTime_eq, monthFromTime_eq]
 
+end Cal
+open OttoVerif.F64
+
 -- ---------------------------------------------------------------- the valid object state
 
 
@@ -310,5 +316,220 @@ theorem monthStart_range (mn l : Int) (hm : 0 ≤ mn ∧ mn ≤ 11) (hl : l = 0 
   rcases hl with hl | hl <;> subst hl <;>
   rcases this with h | h | h | h | h | h | h | h | h | h | h | h <;> subst h <;> decide
 
+
+-- ---------------------------------------------------------------- composition
+
+/-- time.Date composes exactly like MakeDate(MakeDay, MakeTime), for ALL integer fields -/
+theorem make_compose (y m d h mi s ms : Int) :
+    goUnixMilli (goDate y (m + 1) d h mi s (ms * 1000000)) =
+      Spec.MakeDate (Spec.MakeDay y m d) (Spec.MakeTime h mi s ms) := by
+  unfold goDate
+  simp only [goNorm12, goNorm60, goNorm24, goNorm1e9, Int.add_sub_cancel]
+  have hb := daysBefore_monthStart (m % 12) (y + m / 12) (by omega)
+  unfold goUnixMilli Spec.MakeDate Spec.MakeDay Spec.MakeTime absToUnix goDiv
+  simp only [goDaysSinceEpoch_eq]
+  simp only [Int.add_sub_cancel] at hb
+  generalize Spec.monthStart (m % 12) (if Spec.DaysInYear (y + m / 12) = 366 then 1 else 0) = MS at *
+  generalize Spec.DayFromYear (y + m / 12) = DY at *
+  have e1 : ms * 1000000 / 1000000000 = ms / 1000 := by omega
+  have e2 : ms * 1000000 % 1000000000 / 1000000 = ms % 1000 := by omega
+  have e3 : ms * 1000000 % 1000000000 ≥ 0 := by omega
+  rw [if_pos e3, e1, e2]
+  generalize goDaysBefore (m % 12) = GB at *
+  split at hb <;> rename_i hc
+  · simp only [hc, if_true]; omega
+  · simp only [hc, Bool.false_eq_true, if_false]; omega
+
+
+-- ---------------------------------------------------------------- setters
+
+def toSpec : Setter → Spec.Setter
+  | .ms => .ms | .sec => .sec | .min => .min | .hour => .hour | .date => .date | .month => .month | .year => .year | .time => .time
+
+/-- an integer as an (un-normalised) double view; equals `ofInt i` below 2^53 -/
+def fvInt (i : Int) : FV := .fin (decide (i < 0)) i.natAbs 0
+
+theorem field_fvInt (i : Int) : Spec.field? (fvInt i) = some i := by
+  unfold fvInt Spec.field? truncInt truncAbs
+  by_cases h : i < 0 <;> simp [h] <;> omega
+
+theorem newEcmaTime_state (t : Int) : newEcmaTime (stateTime t) =
+    { year := Spec.YearFromTime t, month := Spec.MonthFromTime t, day := Spec.DateFromTime t, hour := Spec.HourFromTime t,
+      minute := Spec.MinFromTime t, second := Spec.SecFromTime t, millisecond := Spec.msFromTime t } := by
+  have hd := goAbsDate_eq _ _ (sameDay_state t)
+  simp [newEcmaTime, goYear, goMonth, goDay, hd, goHour_state, goMinute_state, goSecond_state, goMilli_state]
+
+theorem setter_core (k : Setter) (t : Int) (vs : List Int) (hk : k ≠ .time) (h1 : 1 ≤ vs.length) (h2 : vs.length ≤ k.limit) :
+    some (setCore k (stateTime t) vs) = Spec.setUTCRaw (toSpec k) (some t) (vs.map fvInt) := by
+  have hD := makeDay_roundtrip t
+  have hT := makeTime_roundtrip t
+  rcases vs with _ | ⟨a, _ | ⟨b, _ | ⟨c, _ | ⟨d, _ | ⟨e, rest⟩⟩⟩⟩⟩ <;> cases k <;>
+    simp [Setter.limit] at h1 h2 hk <;>
+    simp [setCore, applySetter, newEcmaTime_state, EcmaTime.goTime, make_compose, toSpec, Spec.setUTCRaw, Spec.argOr, field_fvInt, hD, hT]
+
+-- ---------------------------------------------------------------- the float64 gate (dateObject.Set)
+
+theorem goUnix_state (t : Int) : goUnix (goDiv t 1000) (goMod t 1000 * 1000000) = stateTime t := by
+  unfold goMod
+  by_cases h : t ≥ 0
+  · have e : goDiv t 1000 = t / 1000 := by unfold goDiv; rw [if_pos h]
+    rw [e]; unfold goUnix stateTime
+    rw [if_neg (by omega)]
+    congr 1 <;> omega
+  · have e : goDiv t 1000 = -(-t / 1000) := by unfold goDiv; rw [if_neg h]
+    rw [e]
+    generalize hq : -t / 1000 = q
+    have hm : -999 ≤ t - 1000 * -q ∧ t - 1000 * -q ≤ 0 := by omega
+    have hq' : t / 1000 = if t - 1000 * -q = 0 then -q else -q - 1 := by split <;> omega
+    have hr' : t % 1000 = if t - 1000 * -q = 0 then 0 else 1000 + (t - 1000 * -q) := by split <;> omega
+    unfold stateTime
+    rw [hq', hr']
+    generalize t - 1000 * -q = m at *
+    unfold goUnix
+    by_cases h2 : m = 0
+    · subst h2; simp
+    · simp only [h2, if_false]
+      have e2 : goDiv (m * 1000000) 1000000000 = 0 := by
+        unfold goDiv; rw [if_neg (by omega)]; omega
+      rw [if_pos (by omega), e2]
+      simp only [Int.add_zero, Int.zero_mul, Int.sub_zero]
+      rw [if_pos (by omega)]
+      congr 1; omega
+
+/-- the float division in epochToTime is exact enough: trunc(RNE(t/1000)) = t quo 1000 -/
+def DivExact (t : Int) : Prop := OttoVerif.C05.goInt64 (div (ofInt t) thousand) = goDiv t 1000
+
+instance (t : Int) : Decidable (DivExact t) := by unfold DivExact; infer_instance
+
+theorem goInt64_small (t : Int) (hr : t.natAbs < 2^53) : OttoVerif.C05.goInt64 (.fin (decide (t < 0)) t.natAbs 0) = t := by
+  unfold OttoVerif.C05.goInt64 truncInt truncAbs
+  by_cases h : t < 0 <;> simp [h] <;> omega
+
+theorem set_int (d : DateObj) (hd : d.isNaN = false) (t : Int) (hr : t.natAbs < 2^53) (hdiv : DivExact t) :
+    d.set (ofInt t) = validState t := by
+  unfold DivExact at hdiv
+  have hv : ofInt t = .fin (decide (t < 0)) t.natAbs 0 := by simp [ofInt, hr]
+  have he : epochToInteger (ofInt t) = t := by
+    unfold epochToInteger
+    rw [hv]
+    simp only [floor, ceil, isIntegral]
+    simp [goInt64_small t hr]
+  have ht : epochToTime (ofInt t) = some (stateTime t) := by
+    unfold epochToTime
+    rw [hdiv, hv, goInt64_small t hr]
+    simp [isNaN, isInf, goUnix_state]
+  unfold DateObj.set
+  simp only [he, ht, hd, validState]
+
+theorem ofInt_p63 : ofInt (2^63) = .fin false 4503599627370496 11 := by decide +kernel
+theorem ofInt_m63 : ofInt (-(2^63)) = .fin true 4503599627370496 11 := by decide +kernel
+
+theorem numberArg_small (v : Int) (hr : v.natAbs < 2^53) : numberArg (.fin (decide (v < 0)) v.natAbs 0) = some v := by
+  unfold numberArg
+  by_cases h0 : v.natAbs = 0
+  · simp [h0]; omega
+  · simp only [h0, if_false, ofInt_p63, ofInt_m63]
+    have a1 : ¬ ((9223372036854775808:Int) = -↑v.natAbs) := by omega
+    have a2 : ¬ ((9223372036854775808:Int) < -↑v.natAbs) := by omega
+    have a3 : ¬ ((9223372036854775808:Int) = ↑v.natAbs) := by omega
+    have a4 : ¬ ((9223372036854775808:Int) < ↑v.natAbs) := by omega
+    have a5 : ¬ (-(↑v.natAbs : Int) = -9223372036854775808) := by omega
+    have a6 : ¬ (-(↑v.natAbs : Int) < -9223372036854775808) := by omega
+    have a7 : ¬ ((↑v.natAbs : Int) = -9223372036854775808) := by omega
+    have a8 : ¬ ((↑v.natAbs : Int) < -9223372036854775808) := by omega
+    have e1 : le (.fin false 4503599627370496 11) (.fin (decide (v < 0)) v.natAbs 0) = false := by
+      by_cases h : v < 0 <;> simp [h, le, cmpReal, alignInt, a1, a2, a3, a4]
+    have e2 : le (.fin (decide (v < 0)) v.natAbs 0) (.fin true 4503599627370496 11) = false := by
+      by_cases h : v < 0 <;> simp [h, le, cmpReal, alignInt, a5, a6, a7, a8]
+    simp only [e1, e2, goInt64_small v hr]
+    simp
+
+theorem ofInt_small (v : Int) (hr : v.natAbs < 2^53) : ofInt v = fvInt v := by simp [ofInt, fvInt, hr]
+
+theorem map_ofInt_small (vs : List Int) (hsm : ∀ v ∈ vs, v.natAbs < 2^53) : vs.map ofInt = vs.map fvInt := by
+  induction vs with
+  | nil => rfl
+  | cons a as ih =>
+    simp only [List.map_cons]
+    rw [ofInt_small a (hsm a (by simp)), ih (fun v hv => hsm v (by simp [hv]))]
+
+theorem numberArgs_small (vs : List Int) (hsm : ∀ v ∈ vs, v.natAbs < 2^53) : numberArgs (vs.map fvInt) = some vs := by
+  induction vs with
+  | nil => rfl
+  | cons a as ih =>
+    simp only [List.map_cons, numberArgs]
+    rw [ih (fun v hv => hsm v (by simp [hv]))]
+    have := numberArg_small a (hsm a (by simp))
+    unfold fvInt; rw [this]
+
+/-- one setUTC* call with integral arguments, through the whole float64 round trip -/
+theorem setUTC_int (k : Setter) (t : Int) (vs : List Int) (hk : k ≠ .time) (h1 : 1 ≤ vs.length) (h2 : vs.length ≤ k.limit)
+    (hsm : ∀ v ∈ vs, v.natAbs < 2^53) (t' : Int)
+    (ht' : Spec.setUTCRaw (toSpec k) (some t) (vs.map ofInt) = some t') (hr : t'.natAbs < 2^53) (hdiv : DivExact t') :
+    setUTC k (validState t) (vs.map ofInt) = (validState t', some t') := by
+  rw [map_ofInt_small vs hsm] at ht' ⊢
+  have hc := setter_core k t vs hk h1 h2
+  rw [ht'] at hc
+  have hc' : setCore k (stateTime t) vs = t' := by injection hc
+  have htake : (vs.map fvInt).take k.limit = vs.map fvInt := by
+    apply List.take_of_length_le; simp; exact h2
+  have hne : (vs.map fvInt).isEmpty = false := by
+    cases vs with
+    | nil => simp at h1
+    | cons a as => rfl
+  unfold setUTC
+  cases k <;> first | exact absurd rfl hk | (
+    simp only [validState, Bool.false_eq_true, if_false, htake, hne, numberArgs_small vs hsm]
+    rw [show stateTime t = (validState t).time from rfl] at hc'
+    simp only [validState] at hc'
+    rw [hc', set_int _ rfl t' hr hdiv]
+    rfl)
+
+/-- one call of any of the eight setters (setTime included) with integral arguments -/
+theorem setUTC_step (k : Setter) (t : Int) (vs : List Int) (h1 : 1 ≤ vs.length) (h2 : vs.length ≤ k.limit)
+    (hsm : ∀ v ∈ vs, v.natAbs < 2^53) (t' : Int)
+    (ht' : Spec.setUTCRaw (toSpec k) (some t) (vs.map ofInt) = some t') (hr : t'.natAbs < 2^53) (hdiv : DivExact t') :
+    setUTC k (validState t) (vs.map ofInt) = (validState t', some t') := by
+  by_cases hk : k = .time
+  · subst hk
+    rcases vs with _ | ⟨v, _ | ⟨w, rest⟩⟩
+    · simp at h1
+    · have hv := hsm v (by simp)
+      simp only [List.map_cons, List.map_nil, toSpec, Spec.setUTCRaw] at ht'
+      simp only [List.getElem?_cons_zero, ofInt_small v hv, field_fvInt] at ht'
+      have : v = t' := by injection ht'
+      subst this
+      simp only [setUTC, List.map_cons, List.map_nil, List.headD_cons]
+      rw [set_int _ rfl v hr hdiv]; rfl
+    · simp [Setter.limit] at h2
+  · exact setUTC_int k t vs hk h1 h2 hsm t' ht' hr hdiv
+
+def liftM (s : Setter × List Int) : Setter × List FV := (s.1, s.2.map ofInt)
+def liftS (s : Setter × List Int) : Spec.Setter × List FV := (toSpec s.1, s.2.map ofInt)
+
+/-- every call in the history has 1..limit integral arguments, and every intermediate time value stays inside the
+    ES5 range (¬Dev no_timeclip) and passes the float64 gate -/
+def Good : Int → List (Setter × List Int) → Prop
+  | _, [] => True
+  | t, (k, vs) :: rest => 1 ≤ vs.length ∧ vs.length ≤ k.limit ∧ (∀ v ∈ vs, v.natAbs < 2^53) ∧
+      ∃ t', Spec.setUTCRaw (toSpec k) (some t) (vs.map ofInt) = some t' ∧ t'.natAbs ≤ 8640000000000000 ∧ DivExact t' ∧ Good t' rest
+
+theorem setter_histories (hist : List (Setter × List Int)) : ∀ t : Int, Good t hist →
+    ∃ tf, (Spec.runSetters (some t) (hist.map liftS)).1 = some tf ∧
+      runSetters (validState t) (hist.map liftM) = (validState tf, (Spec.runSetters (some t) (hist.map liftS)).2) := by
+  induction hist with
+  | nil => intro t _; exact ⟨t, rfl, rfl⟩
+  | cons s rest ih =>
+    intro t hg
+    obtain ⟨k, vs⟩ := s
+    obtain ⟨h1, h2, hsm, t', ht', hr, hdiv, hrest⟩ := hg
+    have hstep := setUTC_step k t vs h1 h2 hsm t' ht' (by omega) hdiv
+    have hspec : Spec.setUTC (toSpec k) (some t) (vs.map ofInt) = some t' := by
+      unfold Spec.setUTC; rw [ht']; simp [Spec.TimeClip]; omega
+    obtain ⟨tf, hf1, hf2⟩ := ih t' hrest
+    refine ⟨tf, ?_, ?_⟩
+    · simp only [List.map_cons, liftS, Spec.runSetters, hspec]; exact hf1
+    · simp only [List.map_cons, liftS, liftM, Spec.runSetters, runSetters, hspec, hstep]
+      rw [hf2]
 
 end OttoVerif.C12.Lem
